@@ -776,7 +776,7 @@ impl S3 for FileSystem {
 
             let part_path = self.resolve_upload_part_path(upload_id, part_number)?;
             let size = fs::metadata(&part_path).await.map_err(|e| s3_error!(e, InvalidPart))?.len();
-            if part_number != total_parts_cnt && size < 5 * 1024 * 1024 {
+            if part_number != total_parts_cnt && size < crate::fs::min_part_size() {
                 return Err(s3_error!(EntityTooSmall));
             }
         }
